@@ -281,6 +281,62 @@ theorem C05_for_prints_window (fuel : Nat) (env : Env) (x : Str) (rng : RangeE) 
     simp only [renderN, M.run_bind, M.run_getSt, M.run_lift, hr, hl, ho, hitems]
     exact h
 
+/-- **The whole tag, for any pure-printing body.** If the body, run in the frame of iteration `i` of
+`len` over element `v` (pushed over any runtime), just prints `f len v i` and leaves the runtime as
+it was, then the `for` tag prints `f len v i` for exactly the selected elements `v` in order, with
+`i = 0, 1, …` and `len` the size of the selection — compositional form of `C05_for_prints_window`. -/
+theorem C05_for_compositional (fuel : Nat) (env : Env) (x : Str) (rng : RangeE) (limit offset : Option Expr)
+    (rev : Bool) (body : Tmpl) (f : Nat → V → Nat → Str) (rt : Rt) (w : W) (arr : List V) (lim off : Option Nat)
+    (hr : rng.eval rt.layers = .ok arr) (hl : evalAttr rt.layers limit = .ok lim)
+    (ho : evalAttr rt.layers offset = .ok off)
+    (hi : rt.regs.interrupt = none) (hb : w.budget = none)
+    (hbody : ∀ len parent v i, ForNode.WritesIn (renderList (renderN fuel env) body)
+      (ForNode.iterRoot x len parent v i) (f len v i)) :
+    ∃ rt' w', renderN (fuel + 1) env (.for_ x rng limit offset rev body none) rt w = (.ok (), rt', w') ∧
+      w'.text = w.text ++ (((selectSpec arr lim (off.getD 0) rev).zipIdx 0).map fun (v, j) =>
+        f (selectSpec arr lim (off.getD 0) rev).length v j).flatten := by
+  rw [← C05_window]
+  generalize hitems : iterArray arr lim (off.getD 0) rev = items
+  cases items with
+  | nil =>
+    refine ⟨rt, w, ?_, by simp⟩
+    simp [renderN, M.run_bind, hr, hl, ho, hitems]
+  | cons v r =>
+    obtain ⟨rt', w', h, _, _, ht⟩ := ForNode.loop_pure x (v :: r).length
+      ((rt.layers.tryGet [.str "forloop".toList]).getD .nil) _ (f (v :: r).length)
+      (fun v' j => hbody _ _ v' j) (v :: r) 0 rt w hi hb
+    refine ⟨rt', w', ?_, ht⟩
+    simp only [renderN, M.run_bind, M.run_getSt, M.run_lift, hr, hl, ho, hitems]
+    exact h
+
+/-- **forloop.index / forloop.length, end to end.** `{% for x in R … %}{{ forloop.index }}{% endfor %}`
+prints `1 2 … n` and `{{ forloop.length }}` prints `n` each time, where `n` is the size of the
+selection (after offset/limit), whatever the collection — the loop metadata seen by the template is
+the truthful one of `C05_forloop_truthful`. -/
+theorem C05_for_prints_index (fuel : Nat) (env : Env) (x : Str) (hx : x ≠ "forloop".toList) (rng : RangeE)
+    (limit offset : Option Expr) (rev : Bool) (rt : Rt) (w : W) (arr : List V) (lim off : Option Nat)
+    (hr : rng.eval rt.layers = .ok arr) (hl : evalAttr rt.layers limit = .ok lim)
+    (ho : evalAttr rt.layers offset = .ok off)
+    (hi : rt.regs.interrupt = none) (hb : w.budget = none) :
+    (∃ rt' w', renderN (fuel + 2) env (.for_ x rng limit offset rev
+        [.output (.var "forloop".toList [.lit (.sc (.str "index".toList))]) []] none) rt w = (.ok (), rt', w') ∧
+      w'.text = w.text ++ (((selectSpec arr lim (off.getD 0) rev).zipIdx 0).map fun (_, j) => (iV (j + 1)).render).flatten) ∧
+    (∃ rt' w', renderN (fuel + 2) env (.for_ x rng limit offset rev
+        [.output (.var "forloop".toList [.lit (.sc (.str "length".toList))]) []] none) rt w = (.ok (), rt', w') ∧
+      w'.text = w.text ++ (((selectSpec arr lim (off.getD 0) rev).zipIdx 0).map fun (_, _) =>
+        (iV (selectSpec arr lim (off.getD 0) rev).length).render).flatten) := by
+  constructor
+  · refine C05_for_compositional (fuel + 1) env x rng limit offset rev _ (fun _ _ j => (iV (j + 1)).render)
+      rt w arr lim off hr hl ho hi hb (fun len parent v i => ?_)
+    refine ForNode.print_forloop_field_writes fuel env x len parent v i _ _ hx ?_
+    have h := (C05_forloop_truthful i len parent).2.2.1
+    exact ⟨_, rfl, by simpa [fld, forloopObj] using h⟩
+  · refine C05_for_compositional (fuel + 1) env x rng limit offset rev _ (fun len _ _ => (iV len).render)
+      rt w arr lim off hr hl ho hi hb (fun len parent v i => ?_)
+    refine ForNode.print_forloop_field_writes fuel env x len parent v i _ _ hx ?_
+    have h := (C05_forloop_truthful i len parent).1
+    exact ⟨_, rfl, by simpa [fld, forloopObj] using h⟩
+
 /-- non-vacuity: a literal three-element array with `offset:1` on a fresh runtime -/
 example : ∃ rt' w', renderN 2 {} (.for_ "x".toList (.arr (.lit (.arr [iV 1, iV 2, iV 3]))) none (some (.lit (iV 1))) false
       [.output (.var "x".toList []) []] none) (Rt.build []) {} = (.ok (), rt', w') ∧ w'.text = "23".toList := by
